@@ -16,7 +16,8 @@ def to_iter(vm, m, v):
     if isinstance(v, Ref):
         t = vm.read_at(m, v.cell, v.path)
         if isinstance(t, Seq): return Iter([Ref(v.cell, v.path + (('i', k),)) for k in range(len(t.items))])
-        if isinstance(t, (SliceRef, Iter)): return to_iter(vm, m, t)
+        if isinstance(t, Iter): raise VMError('into_iter of a reference to an iterator (by-reference adaptors advance the original: liter.py)')
+        if isinstance(t, SliceRef): return to_iter(vm, m, t)
         if isinstance(t, Struct) and t.ty == 'HashMap':      # `for (k, v) in &map`: pairs of references, in the map's (unspecified) order
             from .intrinsics import hm_order
             return Iter([Struct((Ref(v.cell, v.path + (('f', 0), ('i', i), ('f', 0))), Ref(v.cell, v.path + (('f', 0), ('i', i), ('f', 1))))) for i in hm_order(t, len(t.f[0].items))])
